@@ -340,6 +340,27 @@ pub fn run(ctx: &mut Ctx) {
             }
         }
     }
+    // long rejected inputs: the error still hands back the whole string that was passed in
+    ctx.stratum("LL-long-rejected-inputs", true);
+    for len in [257usize, 1000, 4095, 4096, 4097, 5000, 65_536, 65_537, 1 << 20] {
+        for fam in 0..6usize {
+            if !ctx.take() {
+                continue;
+            }
+            let mut t = match fam {
+                0 => format!("1.2.3-{}", "a".repeat(len)),
+                1 => format!("1.2.3-{}", "é".repeat(len / 2)),
+                2 => format!("1.2.3\n{}", "x\n".repeat(len / 2)),
+                3 => "foo ".repeat(len / 4),
+                4 => format!("{}1.2.3", " ".repeat(len)),
+                _ => format!("1.2.{}", "9".repeat(len)),
+            };
+            if fam == 3 {
+                t.push('!');
+            }
+            judge(ctx, &t);
+        }
+    }
     ctx.stratum("X-exhaustive-version-alphabet", true);
     let max_len = ctx.tier.pick(6, 9);
     exhaustive(ctx, max_len, &mut |ctx, s| judge(ctx, s));
